@@ -5,7 +5,7 @@
 From Coq Require Import List Arith NArith Lia Bool.
 From BioSeq Require Import Bits Codec Tables Spec Derive.
 Import ListNotations.
-Open Scope N_scope.
+Local Open Scope N_scope.
 
 Lemma forall_bytes (f : N -> bool) :
   forallb f bytes256 = true -> forall b, b < 256 -> f b = true.
